@@ -29,7 +29,7 @@ def bit_of(vec, idx, n):
 
 class NativeMemStub(Module):
     def __init__(self, port, watch_addr, watch_lane, mem, depth=4, min_latency=2, name="stub", with_write=True,
-                 with_read=True):
+                 with_read=True, queued_wdata=False):
         """port: the DUT's controller-side native port.  watch_addr/watch_lane: Signals (symbolic constants).
         mem: 8-bit Signal register owned by the caller (free initial value = initial memory contents)."""
         nbytes = len(port.wdata.data) // 8 if with_write else len(port.rdata.data) // 8
@@ -62,8 +62,9 @@ class NativeMemStub(Module):
         pop = Signal()
         resp_w = Signal()
         resp_r = Signal()
+        wq_have = Signal(reset=1)      # queued_wdata: a write-data beat is waiting in the port's data FIFO
         self.comb += [
-            resp_w.eq(eligible & q_we[0] & go),
+            resp_w.eq(eligible & q_we[0] & go & wq_have),
             resp_r.eq(eligible & ~q_we[0] & go),
             pop.eq(resp_w | resp_r),
         ]
@@ -87,7 +88,34 @@ class NativeMemStub(Module):
             ]
         self.sync += level.eq(level + accept - pop)
         # responses ----------------------------------------------------------------------------
-        if with_write:
+        if with_write and queued_wdata:
+            # a port that queues write data (up-converter or CDC in front of the crossbar): a data beat is accepted whenever the
+            # data FIFO has room (free input), independently of commands, and is paired with the write commands in order
+            QW = 2
+            wgo = inp("wdata_fifo_ready")
+            wq_b = [Signal(8) for _ in range(QW)]
+            wq_e = [Signal() for _ in range(QW)]
+            wq_lvl = Signal(max=QW + 1)
+            whs = Signal()
+            self.comb += [port.wdata.ready.eq(wgo & (wq_lvl != QW)), whs.eq(port.wdata.valid & port.wdata.ready),
+                          wq_have.eq(wq_lvl != 0)]
+            inb, ine = byte_of(port.wdata.data, watch_lane, nbytes), bit_of(port.wdata.we, watch_lane, nbytes)
+            for i in range(QW):
+                nb_ = wq_b[i + 1] if i + 1 < QW else Constant(0, 8)
+                ne_ = wq_e[i + 1] if i + 1 < QW else Constant(0, 1)
+                self.sync += [If(resp_w, wq_b[i].eq(nb_), wq_e[i].eq(ne_), If(whs & (wq_lvl == i + 1), wq_b[i].eq(inb), wq_e[i].eq(ine))
+                                 ).Elif(whs & (wq_lvl == i), wq_b[i].eq(inb), wq_e[i].eq(ine))]
+            self.sync += wq_lvl.eq(wq_lvl + whs - resp_w)
+            self.sync += If(resp_w & q_w[0] & wq_e[0], mem.eq(wq_b[0]))
+            # beats accepted so far never outnumber the write commands accepted so far
+            owed = Signal(4)       # write commands accepted minus data beats accepted
+            wacc = Signal()
+            self.comb += wacc.eq(accept & port.cmd.we)
+            self.sync += owed.eq(owed + wacc - whs)
+            b = Signal(name_override="bad_%s_wdata_beat_without_command" % name)
+            self.comb += b.eq(whs & (owed == 0) & ~wacc)
+            self.bads["write_data_beat_handed_to_the_port_without_a_write_command"] = b
+        elif with_write:
             self.comb += port.wdata.ready.eq(resp_w)
             b = Signal(name_override="bad_%s_wdata_not_valid_at_strobe" % name)
             self.comb += b.eq(resp_w & ~port.wdata.valid)
